@@ -347,7 +347,8 @@ class LinearAlgebraMethods(object):
             s = ctx.fsum(abs(A[i,j])**2 for i in xrange(j, m))
             if not abs(s) > ctx.eps:
                 raise ValueError('matrix is numerically singular')
-            p.append(-ctx.sign(ctx.re(A[j,j])) * ctx.sqrt(s))
+            # sign(0) = 0 would give a zero diagonal element of R
+            p.append(-(ctx.sign(ctx.re(A[j,j])) or ctx.one) * ctx.sqrt(s))
             kappa = ctx.one / (s - p[j] * A[j,j])
             A[j,j] -= p[j]
             for k in xrange(j+1, n):
